@@ -98,8 +98,11 @@ fn gen_domain(r: &mut Rng) -> String {
 }
 
 fn gen_v6(r: &mut Rng) -> u128 {
-    match r.below(4) {
+    match r.below(6) {
         0 => u128::from("2001:db8::53".parse::<Ipv6Addr>().unwrap()),
+        // a configured value that coincides with a value of the environment: the interface's own address written out
+        // (next to, or instead of, $self6)
+        4 => u128::from(SELF6.parse::<Ipv6Addr>().unwrap()),
         1 => u128::from("fd00:abcd::1".parse::<Ipv6Addr>().unwrap()) + r.below(1000) as u128,
         _ => ((r.next() as u128) << 64 | r.next() as u128) | (0x2000u128 << 112),
     }
